@@ -200,8 +200,10 @@ struct AjExec {
     if (val.k == MVal::Str && direct == 1) { at(t, kc, [&](auto&& v) { ret = v.set(val.s); }); return ret; }
     if (val.k == MVal::Str && direct == 2 && val.s.find('\0') == std::string::npos) { const char* p = arena.keep(val.s); at(t, kc, [&](auto&& v) { ret = v.set(p); }); return ret; }
     if (val.k == MVal::Bool && direct == 3) { at(t, kc, [&](auto&& v) { ret = v.set(val.b); }); return ret; }
+    // the typed set() itself must release whatever the target holds: go through the existing value when there is one
+    // (to<JsonVariant>() would clear it first), create it otherwise
     AJ::JsonVariant jv;
-    at(t, kc, [&](auto&& v) { jv = v.template to<AJ::JsonVariant>(); });
+    at(t, kc, [&](auto&& v) { jv = v.template as<AJ::JsonVariant>(); if (jv.isUnbound() || steps % 4 == 0) jv = v.template to<AJ::JsonVariant>(); });
     if (jv.isUnbound()) { bound = false; return false; }
     return set_scalar(jv, val, strkind, arena, rng);
   }
